@@ -16,6 +16,9 @@ def judge(c, r):
         if bool(r.get("subpanic")) != want:
             return "declared inside a sub command's initialiser, then the application's help requested: Run %s (%s), specification says %s" % (
                 "panicked" if r.get("subpanic") else "returned", r.get("submsg"), "a declaration must panic" if want else "every declaration is accepted")
+        if not want and c["decls"] and r.get("subpanic2") is not True:
+            return ("declared inside a sub command's initialiser: the second help request runs the initialiser again on the same command, every "
+                    "declaration repeats a name that is taken and must panic; Run returned")
         return None
     for k, (want, got) in enumerate(zip(c["outcome"], r["panics"])):
         if want == "either":
@@ -47,7 +50,7 @@ def run(tier, wd):
     core.tlc_must_finish(res, "Decl")
     rep.add_tlc(res)
     cases = [json.loads(p) for p in sorted(set(res.printed("DECL")))]
-    want = (8420 + 12 + 12 ** 2 + 12 ** 3) if q else (20 + 20 ** 2 + 20 ** 3 + 20 ** 4 + 12 + 12 ** 2 + 12 ** 3 + 12 ** 4)
+    want = (8420 + 14 + 14 ** 2 + 14 ** 3) if q else (20 + 20 ** 2 + 20 ** 3 + 20 ** 4 + 14 + 14 ** 2 + 14 ** 3 + 14 ** 4)
     if len(cases) != want:
         raise core.Broken("Decl.tla emitted %d sequences, expected %d" % (len(cases), want))
     # a second name universe: names that differ only by case, by an underscore versus a dash, a one-letter upper-case name
@@ -61,7 +64,7 @@ def run(tier, wd):
     cases = cases + cases2
     def concrete(c):
         if c["kind"] == "args":
-            return {"kind": "args", "decls": [n.replace("~", "\u0142") for n in c["decls"]]}
+            return {"kind": "args", "decls": [n.replace("~", "\u0142").replace("!", "\n").replace("?", "\r") for n in c["decls"]]}
         return {"kind": c["kind"], "decls": c["decls"]}
     # Cli.Version declares an option too: every option sequence again with one of its declarations made through Version (the name
     # table of Decl.tla does not care through which entry point a declaration arrives)
@@ -98,7 +101,7 @@ def run(tier, wd):
     rep.cov["distinct_nontrivial"] = nontriv
     rep.cov["exhaustive"] = True
     rep.cov["rule"] = ("every sequence of 1..3 (thorough: 1..4) option declarations with name lists of 1..2 names over {a, b, ab, ba} (8420 / 168420) and every sequence of 1..3 (1..4) argument "
-                       "declarations over {X, Y, X1_, x, 1X, OPTIONS, X-Y, Xy, _X, X_Y, X\u0142, \u0142} (1884 / 22620): Decl.tla keeps the name table and says which declarations must panic; "
+                       "declarations over {X, Y, X1_, x, 1X, OPTIONS, X-Y, Xy, _X, X_Y, X\u0142, \u0142, X<LF>, <CR>X} (2954 / 41370): Decl.tla keeps the name table and says which declarations must panic; "
                        "each declaration is made on the library under recover, then every name of every accepted option is used on a command line and must set "
                        "exactly its own variable; non-trivial = the sequence contains a declaration that must panic")
     rep.assumptions += ["a name listed only by a rejected declaration is unclaimed when reused (the property does not say; the code leaves it half-registered)",
@@ -110,7 +113,7 @@ def replay(path, wd):
     with open(path) as f:
         c = json.load(f)["replay"]["case"]
     binpath = core.build_harness()
-    decls = [n.replace("~", "\u0142") for n in c["decls"]] if c["kind"] == "args" else c["decls"]
+    decls = [n.replace("~", "\u0142").replace("!", "\n").replace("?", "\r") for n in c["decls"]] if c["kind"] == "args" else c["decls"]
     r = core.run_harness(binpath, "decl", [dict({"kind": c["kind"], "decls": decls}, **{k: c[k] for k in ("version", "runafter", "insub") if k in c})], wd, shards=1)[0]
     why = judge(c, r)
     print("replay: %s %s -> %s ; %s" % (c["kind"], c["decls"], json.dumps(r), why or "agrees with the specification"))
